@@ -177,7 +177,17 @@ let header_str (h : vheader) : string =
     lst_str h.hh_samples]
 let lines_str ls = String.concat "," (List.map hex_of_bytes ls)
 let lines_of s = if s = "~" then [] else List.map bytes_of_hex (split_on ',' s)
-let hres ls = if unmodelled_lines ls then "U" else match read_header ls with None -> "Err" | Some h -> header_str h
+let hres ls = if unmodelled_lines ls then "U" else match read_header_chk ls with None -> "Err" | Some h -> header_str h
+
+(* ---- whole files (NV.Vcf.File) ---- *)
+let file_obs tab text =
+  if file_unmodelled text then "U" else
+  match read_file_eager_std (prs_of tab) text, read_file_lazy_std (prs_of tab) text with
+  | Some (h, (es, eok)), Some (_, (ls, lok)) ->
+      let fin ok = if ok then "$Eof" else "$Err" in
+      header_str h ^ "|E:" ^ String.concat "^" (List.map rec_str es) ^ fin eok
+      ^ "|L:" ^ String.concat "^" (List.map (fun o -> match o with None -> "Err" | Some r -> rec_str r) ls) ^ fin lok
+  | _, _ -> "Err"
 
 let handle kind a =
   try
@@ -269,6 +279,14 @@ let handle kind a =
               string_of_int (int_of_nat n) ^ "|" ^ String.concat "," (List.map hex_of_bytes (lf_obs f))
               ^ "|" ^ (match r with None -> "Err" | Some x -> rec_str x) in
         Some (String.concat "^" (List.map one (lazy_records_std (prs_of tab) h raw)))
+    | "file" ->
+        let hd = header_of a.(0) in
+        let rs = if a.(1) = "~" then [] else List.map rec_of (split_on '^' a.(1)) in
+        let tab = ftab a.(2) in
+        (match write_file (fmt_of tab) hd rs with
+         | None -> Some "WErr"
+         | Some text -> Some (hex_of_bytes text ^ "|" ^ file_obs tab text))
+    | "ftxt" -> Some (file_obs (ftab a.(1)) (bytes_of_hex a.(0)))
     | "hw" ->
         (match write_header (header_of a.(0)) with
          | None -> Some "WErr"
